@@ -173,11 +173,11 @@ PROPS['C17'] = {
              '(roles, parked awaiters, lost-race count).'),
     'min_nontrivial': [200, 2000],
     'require_classes': ['shared_future_mt:awaiters_parked_before_resolution', 'shared_future_mt:awaiters_lost_race_to_ready'],
-    'single_thread_scenarios': ('shared_future_history', 'shared_future_trivial_types', 'shared_future_string_values', 'shared_future_reference_source', 'shared_future_many_awaiters'),
+    'single_thread_scenarios': ('shared_future_history', 'shared_future_trivial_types', 'shared_future_string_values', 'shared_future_reference_source', 'shared_future_many_awaiters', 'shared_future_throwing_copy'),
     'jobs': [
         J('hist_asan', 'c17.cpp', 'asan', [30000, 1500000], scenario='shared_future_history', threads=1),
         J('triv_asan', 'c17.cpp', 'asan', [30000, 1500000], scenario='shared_future_trivial_types', threads=1),
-        J('str_asan', 'c17.cpp', 'asan', [20000, 800000], scenario='shared_future_string_values,shared_future_reference_source,shared_future_many_awaiters', threads=1),
+        J('str_asan', 'c17.cpp', 'asan', [20000, 800000], scenario='shared_future_string_values,shared_future_reference_source,shared_future_many_awaiters,shared_future_throwing_copy', threads=1),
         J('mt_asan', 'c17.cpp', 'asan', [40000, 2000000], scenario='shared_future_mt'),
         J('mt_rel', 'c17.cpp', 'rel', [200000, 8000000], scenario='shared_future_mt'),
         J('mt_crel', 'c17.cpp', 'crel', [0, 3000000], scenario='shared_future_mt', tiers=(T,)),
